@@ -372,10 +372,34 @@ def gen_mp_uniform(rng, f, count):
         out.append(("mp %s %d %d %d" % (f, w, q, t), "N-uniform"))
     return out
 
-def gen_mp_near_halfway(rng, f, count):
+def floats_in_decade(rng, f, q, n):
+    """bit patterns of floats whose value lies in [10^(18+q), 10^(19+q))"""
+    import math
+    F = FMT[f]
+    mb = F["mbits"]
+    res = []
+    lo_e2 = int(math.floor((18 + q) * 3.3219280948873626))
+    for _ in range(n):
+        e2 = lo_e2 + rng.randint(0, 3)          # value ~ 2^e2
+        E = e2 - mb - kmin(f) + 1
+        if E < 1:
+            bits = rng.getrandbits(max(1, mb + E)) if mb + E >= 1 else 1
+        elif E >= 2 ** F["ebits"] - 1:
+            continue
+        else:
+            bits = (E << mb) | rng.getrandbits(mb)
+        res.append(bits)
+    return res
+
+def gen_mp_near_halfway(rng, f, count, focus_q=None):
     """(w, q) with w*10^q within ~1e-19 relative of a midpoint: 19/20-digit truncations of midpoints"""
     out = []
-    strata = float_strata(rng, f, 4)
+    if focus_q:
+        strata = []
+        for q in focus_q:
+            strata += floats_in_decade(rng, f, q, max(1, count // (4 * len(focus_q))))
+    else:
+        strata = float_strata(rng, f, 4)
     rng.shuffle(strata)
     for bits in strata:
         if len(out) >= count:
@@ -396,6 +420,72 @@ def gen_mp_near_halfway(rng, f, count):
                 if ww < 2 ** 64 and I32MIN <= q <= I32MAX:
                     out.append(("mp %s %d %d %d" % (f, ww, q, 0), "N-near-half"))
                     out.append(("mp %s %d %d %d" % (f, ww, q, 1), "N-near-half-t"))
+    return out[:count]
+
+def gen_mp_exact_guard(rng, f, per_q=6):
+    """exact products (5^q fits 64 bits, low table word 0) whose guard bits are all ones: the second
+    multiplication is taken and the carry comparison sees second_hi == first_lo == 0"""
+    out = []
+    F = FMT[f]
+    g = 64 - (F["mbits"] + 3)          # number of guard bits
+    for q in range(0, 28):
+        p5 = 5 ** q
+        if p5 << (g + 1) >= 1 << 64:
+            break
+        mod = 1 << (g + 1)
+        inv = pow(p5, -1, mod)
+        for _ in range(per_q):
+            for low in (mod - 2, mod - 1):
+                t0 = (inv * low) % mod
+                # X = p5 * t in [2^63, 2^64)
+                tmin = ((1 << 63) + p5 - 1) // p5
+                tmax = ((1 << 64) - 1) // p5
+                if tmax - tmin < mod:
+                    continue
+                t = rng.randint(tmin, tmax - mod)
+                t += (t0 - t) % mod
+                X = p5 * t
+                if not ((1 << 63) <= X < (1 << 64)) or X % mod != low:
+                    continue
+                w = t
+                for sh in (0, 1, 3):
+                    if w % (1 << sh) == 0 or sh == 0:
+                        ww = w >> sh if sh and w % (1 << sh) == 0 else w
+                        out.append(("mp %s %d %d 0" % (f, ww, q), "N-exact-guard"))
+    return out
+
+def gen_bigint_ties(rng, f, count):
+    """integer-valued inputs around integer midpoints >= 2^64 (positive_digit_comp / hi64 sticky logic):
+    M, M +- 2^t for t across limb boundaries, bit lengths at and around multiples of 64"""
+    out = []
+    F = FMT[f]
+    mb = F["mbits"]
+    emax = 2 ** (F["ebits"] - 1) - 1
+    ks = [k for k in range(12, emax - mb + 1)]
+    pick = [k for k in ks if (k + mb + 1) % 64 in (0, 1, 63)] + [rng.choice(ks) for _ in range(40)]
+    rng.shuffle(pick)
+    for k in pick:
+        if len(out) >= count:
+            break
+        for m in ((1 << mb), (1 << mb) + 1, (1 << (mb + 1)) - 2, (1 << (mb + 1)) - 1, (1 << mb) | rng.getrandbits(mb)):
+            M = (2 * m + 1) << (k - 1)
+            ts = {0, 1, 2, 63, 64, 65, 127, 128, k - 2, k - 3, max(0, k - 65), max(0, k - 64), max(0, k - 63), rng.randrange(0, k - 1)}
+            vals = [(M, "I-tie")]
+            for t in ts:
+                if 0 <= t < k - 1:
+                    vals.append((M + (1 << t), "I-tie+2^t"))
+                    vals.append((M - (1 << t), "I-tie-2^t"))
+            for v, fam in vals:
+                ds = str(v)
+                r = rng.random()
+                if r < 0.6:
+                    out.append((pf(f, ds, "", 0), fam))
+                elif r < 0.8:
+                    z = len(ds) - len(ds.rstrip("0"))
+                    out.append((pf(f, ds.rstrip("0") or "0", "", z), fam))
+                else:
+                    p = rng.randint(1, len(ds))
+                    out.append((pf(f, ds[:p], ds[p:], len(ds) - p), fam))
     return out[:count]
 
 def gen_mp_ties(rng, f):
@@ -697,6 +787,8 @@ def gen_histories(rng, count):
             elif r < 0.90:
                 ops.append("cmp")
             elif r < 0.93:
+                # top-bit extraction documents a normalised operand (debug builds trap on a zero top limb)
+                ops.append("norm")
                 ops.append("hi64")
             elif r < 0.95:
                 ops.append("len")
